@@ -249,10 +249,16 @@ impl<C: GenericConfig<D, F = F>> Built<C> {
 
 /// Draw a whole statement.
 pub fn draw_statement(r: &mut Rng, max_ops: usize, faulting: bool, recursion_friendly: bool) -> Statement {
+    draw_statement_with(r, max_ops, faulting, recursion_friendly, true)
+}
+
+/// `default_gates_only`: restrict to gates registered in `DefaultGateSerializer`.
+pub fn draw_statement_with(r: &mut Rng, max_ops: usize, faulting: bool, recursion_friendly: bool, split_base: bool) -> Statement {
     let mut rc = r.sub("config");
     let cfg = Cfg::draw(&mut rc, faulting, recursion_friendly);
     let mut rp = r.sub("program");
-    let fam = Families::draw(&mut rp);
+    let mut fam = Families::draw(&mut rp);
+    fam.split_base = split_base;
     let prog = gen_program(&mut rp, &cfg.to_circuit_config(), &fam, max_ops);
     Statement { prog, cfg }
 }
